@@ -447,6 +447,15 @@ def cmpWord (s : Big) (r : Cmp) (number : Nat) : M Bool := do
     | .eq => s.idx == 0 && w == number
     | .ne => s.idx != 0 || w != number
 
+/-- the mirror image of a relation: `n r x ⇔ x (mirror r) n` -/
+def Cmp.mirror : Cmp → Cmp
+  | .lt => .gt | .le => .ge | .gt => .lt | .ge => .le | .eq => .eq | .ne => .ne
+
+/-- The reversed friends `operator OP(const Number_T number, const BigInt &out)` (lines 141-183):
+`number < out` is `out > number`, `number <= out` is `out >= number`, `number > out` is `out < number`,
+`number >= out` is `out <= number`, `==`/`!=` delegate to themselves. -/
+def rcmpWord (s : Big) (r : Cmp) (number : Nat) : M Bool := cmpWord s r.mirror number
+
 def isBig (s : Big) : Bool := s.idx != 0
 def notZero (s : Big) : M Bool := cmpWord s .ne 0
 def isZero (s : Big) : M Bool := cmpWord s .eq 0
@@ -612,7 +621,8 @@ inductive Op where
   | div (d : Nat)
   | shl (k : Nat)
   | shr (k : Nat)
-  | cmp (r : Cmp) (x : Nat)
+  | cmp (r : Cmp) (x : Nat)     -- x OP number
+  | rcmp (r : Cmp) (x : Nat)    -- number OP x
   | isBig | notZero | isZero | number
   | narrow (K : Nat)
   | ffb | flb
@@ -633,6 +643,7 @@ def step (c : Cfg) (s : Big) : Op → M (Big × Ret)
   | .shl k => do let s ← shiftLeft c.W s k; pure (s, .none)
   | .shr k => do let s ← shiftRight c.W s k; pure (s, .none)
   | .cmp r x => do let b ← cmpWord s r x; pure (s, .bool b)
+  | .rcmp r x => do let b ← rcmpWord s r x; pure (s, .bool b)
   | .isBig => pure (s, .bool (isBig s))
   | .notZero => do let b ← notZero s; pure (s, .bool b)
   | .isZero => do let b ← isZero s; pure (s, .bool b)
@@ -707,6 +718,7 @@ def specStep (W n : Nat) (a : Nat) : Op → Option (Nat × Ret)
   | .shl k => if a * 2 ^ k < 2 ^ (n * W) then some (a * 2 ^ k, .none) else none
   | .shr k => some (a / 2 ^ k, .none)
   | .cmp r x => if x < 2 ^ W then some (a, .bool (cmpSpec r a x)) else none
+  | .rcmp r x => if x < 2 ^ W then some (a, .bool (cmpSpec r x a)) else none
   | .isBig => some (a, .bool (decide (a ≥ 2 ^ W)))
   | .notZero => some (a, .bool (a != 0))
   | .isZero => some (a, .bool (a == 0))
